@@ -112,6 +112,7 @@ Step ==
                                         \cup (IF Cfg.fault /\ e.note \notin {"nil", "divider produces an incorrect distribution"} THEN {"C15"} ELSE {})
                         /\ Keep
        [] e.e = "Deadline" -> viol' = viol \cup {IF Cfg.fault THEN "C15" ELSE "C07"} /\ Keep
+       [] e.e = "RelPanic" -> viol' = viol \cup {IF Cfg.fault THEN "C15" ELSE "C07"} /\ Keep   \* terminated with an unreleased item
        [] e.e = "Starved" -> viol' = viol \cup {"C06"} /\ Keep
        [] e.e = "QA" -> \* only priority e.p had data, nothing else in flight, nothing released: it must hold all H handlers
                         /\ viol' = viol \cup (IF HeldOf(e, e.p) # Cfg.H THEN {"C06"} ELSE {}) /\ Keep
